@@ -18,7 +18,7 @@ import (
 // error of the Go runtime (stack overflow, concurrent map write) kills the child, the supervisor finds
 // the program that caused it, confirms it alone in a fresh process and restarts the child with that
 // program on a skip list (the child reports it as a violation / skips it).
-var supervised = map[string]bool{"C01": true, "C05": true, "C07": true, "C20": true, "C13": true, "C09": true, "C15": true}
+var supervised = map[string]bool{"C01": true, "C05": true, "C07": true, "C20": true, "C13": true, "C19": true, "C09": true, "C15": true}
 
 type fatalCase struct {
 	ID    string                 `json:"id"`
